@@ -18,6 +18,9 @@ func (p *Path) zeroResultsOf(fn *ssa.Function) Value {
 
 func (e *Engine) makeOverride(name, spec string) (intrinsic, error) {
 	switch {
+	case spec == "inline" && strings.HasPrefix(name, "go:"):
+		// marker consulted by goStmt: the goroutine body runs synchronously at the go statement
+		return func(p *Path, fn *ssa.Function, a []Value) Value { return goInline{} }, nil
 	case spec == "skip" && strings.HasPrefix(name, "go:"):
 		// marker consulted by goStmt: the goroutine is not executed
 		return func(p *Path, fn *ssa.Function, a []Value) Value { return nil }, nil
